@@ -15,7 +15,7 @@ Next == ty = "" /\ ty' \in Types /\ v' \in Vectors(ty')
 \* near: the vector differs from the base vector in at most one field (these get the fault set in the quick tier)
 Near == Cardinality({i \in 1..Len(v) : v[i] # BaseVec(ty)[i]}) <= 1
 Item == IF WellFormed(ty, v)
-        THEN [ty |-> ty, k |-> "vec", v |-> v, rel |-> HasRelative(ty, v), near |-> Near]
+        THEN [ty |-> ty, k |-> "vec", v |-> v, rel |-> HasRelative(ty, v), near |-> Near, base |-> (v = BaseVec(ty))]
         ELSE [ty |-> ty, k |-> "oct", b |-> Encode(ty, v, Origin), rel |-> FALSE]
 Emit == ty = "" \/ PrintT("BEH " \o ToJson(Item))
 =============================================================================
